@@ -169,3 +169,54 @@ def congruent_on_path(interp, a, b, m):
     d = expand_mods(interp.resolve(Lin.of(a) - Lin.of(b)), m)
     lo, hi = interp.lin_interval(d)
     return lo == hi and lo % m == 0
+
+
+# ---------------------------------------------------------------------------- keys oracle
+def spell(letter, pitch):
+    d = (pitch - NAT[letter]) % 12
+    if d > 6:
+        d -= 12
+    return letter + ("#" * d if d > 0 else "b" * -d)
+
+
+def oracle_key_table():
+    """15 rows (signature -7..7): (major tonic, minor tonic) from the circle of fifths."""
+    rows = []
+    for s in range(-7, 8):
+        letter = letter_up("C", 4 * s)
+        major = spell(letter, (7 * s) % 12)
+        ml = letter_up(letter, 5)
+        minor = spell(ml, (7 * s + 9) % 12)
+        rows.append((major, minor[0].lower() + minor[1:]))
+    return rows
+
+
+def oracle_signature_accidentals(s):
+    sharps = circle_of_fifths_letters()
+    if s > 0:
+        return [l + "#" for l in sharps[:s]]
+    if s < 0:
+        return [l + "b" for l in list(reversed(sharps))[:-s]]
+    return []
+
+
+def oracle_key_notes(key):
+    table = oracle_key_table()
+    for i, (ma, mi) in enumerate(table):
+        if key in (ma, mi):
+            s = i - 7
+            break
+    else:
+        raise KeyError(key)
+    altered = {a[0]: a[1] for a in oracle_signature_accidentals(s)}
+    tonic = key[0].upper()
+    out = []
+    for k in range(7):
+        l = letter_up(tonic, k)
+        out.append(l + altered.get(l, ""))
+    # self-check of the oracle: step pattern and tonic
+    pat = MAJOR_STEPS if key[0].isupper() else MAJOR_STEPS[5:] + MAJOR_STEPS[:5]
+    pcs = [pitch_of_concrete(n) for n in out]
+    assert out[0] == key[0].upper() + key[1:], (key, out)
+    assert [(pcs[(i + 1) % 7] - pcs[i]) % 12 for i in range(7)] == pat, (key, out)
+    return out, s
